@@ -131,7 +131,8 @@ def check(ctx):
         "a recording check (Option<SpanInner|LocalSpanInner|&mut SpanLine> = Some, SpanLine.is_sampled = true, matched "
         "on value origins so helper predicates count); R4 Span::root returns noop before a reporter is ready, "
         "enter_with_parent on a no-op parent, every Span::new call receives a token that cannot be empty, REPORTER_READY is "
-        "stored true only after GlobalCollector::start and read un-negated.")
+        "stored true only after GlobalCollector::start and read un-negated; R5 'no local parent' is a state the stack really returns "
+        "to: releasing a scope pops it on every path, and the six local operations act only across span_lines.last_mut() = Some.")
     ctx.not_decided = "thread count at run time; 'nothing is delivered' for all call sequences beyond reachability."
     # ------------------------------------------------------------------ config D
     D = ctx.facts("D")
@@ -235,6 +236,11 @@ def check(ctx):
     rule_not_recording(ctx, E, lazy.prov)
     from .. import provrules
     provrules.rule_reporter_ready(ctx, E, "R4")
+    # "local operations with no local parent" are inert only if no scope outlives its guard: a released scope is popped
+    # on every path, and the handle leaves its guard only in Drop (C10-R2)
+    from .. import scopes
+    scopes.rule_unregister_always_pops(ctx, E, "R5")
+    scopes.rule_inert_without_scope(ctx, E, "R5")
 
 
 def rule_not_recording(ctx, E, prov):
